@@ -160,6 +160,9 @@ func produce(thorough bool, emit func(*Case)) (trees int64) {
 		if only != "" && !strings.Contains(only, spaceName[:1]) {
 			return
 		}
+		if devMaxIdx > 0 && idx >= devMaxIdx {
+			return
+		}
 		trees++
 		for _, b := range backendNames {
 			for _, l := range limitNames {
@@ -187,6 +190,9 @@ func produce(thorough bool, emit func(*Case)) (trees int64) {
 }
 
 var sandboxRoot string
+
+// development aids (a run with either of them set reports exhaustive=false)
+var devMaxIdx = func() int64 { var n int64; fmt.Sscan(os.Getenv("VERIF_C07_MAXIDX"), &n); return n }()
 
 func TestC07(t *testing.T) {
 	if p := os.Getenv("VERIF_C07_PROBE"); p != "" {
@@ -284,7 +290,7 @@ func TestC07(t *testing.T) {
 	rep.Coverage["cases_per_space"] = st.perSpace
 	rep.Coverage["distinct_nontrivial"] = st.nontrivial
 	rep.Coverage["rule"] = "a case (tree × backend × limits) counts when its tree has at least one entry, the repository's Zip produced an archive of it, and both filesystem views were opened over the archives — i.e. the header-writing walk, the extraction loop and the read-only wrappers were all exercised; the tree without entries does not count"
-	rep.Coverage["exhaustive"] = os.Getenv("VERIF_C07_ONLY") == ""
+	rep.Coverage["exhaustive"] = os.Getenv("VERIF_C07_ONLY") == "" && devMaxIdx == 0
 	rep.Coverage["bound"] = boundText(thorough)
 	rep.Coverage["max_entries_in_a_tree"] = st.maxEntries
 	rep.Coverage["distinct_case_outcomes"] = len(st.outcomes)
